@@ -592,8 +592,12 @@ def run(tier):
         "Decided (necessary conditions): every unsigned text-to-integer conversion inspects the sign (S1); the three parsenum siblings "
         "share the same decision structure -- one conversion, EINVAL exactly on 'no digits or unwanted trailing characters', otherwise "
         "ERANGE on the bound tests, errno cleared first (S2); humansize_parse accumulates only behind overflow guards, covers its "
-        "states, maps SI prefixes to the right powers of 1000 and takes only '0'..'9' as digits (S3). Not decided: the type-classification "
-        "arithmetic of the PARSENUM macros, floating-point rounding, the formatting function humansize().",
+        "states, maps SI prefixes to the right powers of 1000 and takes only '0'..'9' as digits (S3); its state machine, extracted from the CFG by "
+        "evaluation over known values, accepts exactly /[0-9]+ ?[kMGTPE]?B?/ and leaves multiplier == 1000^k (S3-grammar: product with the "
+        "documented automaton over all byte values -- decided for all strings); the PARSENUM macros on generic instantiations (S2-macro: errno "
+        "cleared first, conversion selected by the type probes evaluated in the target's type, type limit, clamped lower bound, negative upper "
+        "bound, no verdict overwritten, value errno != 0); humansize() prints within its documented digit forms (S4). Not decided: "
+        "floating-point rounding, libc's conversions themselves.",
         trusted=["strtod/strtoimax/strtoumax semantics of libc"])
     prog = ir.Program(["util/humansize.c", "util/sock.c", "http/http.c"], cdb.HOST)
     rep.add_stats(prog)
